@@ -18,8 +18,13 @@ THEOREMS = {n: "Props.C01" for n in [
     "C01_scale_bracket", "C01_factor1_exact", "C01_scale_bracket_vec", "C01_factor1_exact_vec", "C01_bracket_example", "C01_bracket_example_vec"]}
 
 
+# very wide domains: _dx_eps (2 * max|bound| * machine eps) is then comparable to widths of ordinary intervals,
+# so the "below float resolution -> loss 0" cut-off of _get_loss_in_interval becomes visible
+WIDE_BOUNDS = [(0.0, 2e14), (-3e13, 1e13), (1e12, 5e15)]
+
+
 def gen_cfg(rng, quick=True):
-    cfg = {"func": rng.choice(list(I.FUNCS)), "bounds": list(rng.choice(I.BOUNDS)),
+    cfg = {"func": rng.choice(list(I.FUNCS)), "bounds": list(rng.choice(I.BOUNDS + WIDE_BOUNDS if rng.random() < 0.25 else I.BOUNDS)),
            "loss": rng.choice(I.LOSSES + ["resolution_max"]), "factor": rng.choice([1, 2, 2])}
     if cfg["loss"] == "abs_min_log" and cfg["func"] in ("step", "neg", "vec_step"):
         cfg["loss"] = "curvature"       # log of 0 / negative values: nan losses, outside the property
